@@ -118,7 +118,15 @@ func (p *Prog) JS() string {
 			sb.WriteString("throw \"boom\";\n")
 		}
 	case "loop":
-		sb.WriteString("for(;;){}\n")
+		switch len(p.Ops) % 3 {
+		case 1:
+			// never ends while the text of the thrown value is computed (its toString), after the body has returned
+			sb.WriteString("return {get a() { throw {toString: function() { for(;;){} }}; }};\n")
+		case 2:
+			sb.WriteString("throw {toString: function() { for(;;){} }};\n")
+		default:
+			sb.WriteString("for(;;){}\n")
+		}
 	case "emitbad":
 		if len(p.Ops)%3 == 2 {
 			// an emitted value whose export runs script code that throws
